@@ -294,9 +294,10 @@ def merge_contents(cset, offset=None, callback=None):
                 raise
 
             # by this time, all directories should've been merged.
-            # thus we can check the target
+            # thus we can check the target; a relative target is relative to
+            # the directory holding the symlink, not to the symlink itself.
             try:
-                if not fs.isdir(gen_obj(pjoin(x.location, x.target))):
+                if not fs.isdir(gen_obj(pjoin(os.path.dirname(x.location), x.target))):
                     raise
             except OSError:
                 raise cf
